@@ -29,7 +29,9 @@ package backup
 // very key that was just looked up (the remote path of the local file), and it must be in the set: otherwise an
 // unchanged file of the snapshot stays in the set and is deleted from the backup. Thin contract: the walk callback
 // is run from an arbitrary state on arbitrary arguments (filepath.Walk is external). The clause names no local of the
-// function (arg0, arg1 are the operands of the delete), so renaming locals does not disturb it.
+// function (arg0, arg1 are the operands of the delete), so renaming locals does not disturb it. Second clause: remote
+// files are deleted as orphans only after the walk and every upload succeeded (walkErr, waitErr both nil) - otherwise
+// a backup that is missing files would also have lost the previous copies.
 //@ func filepath.Walk
 //@   property C19
 //@   assumed standard library: walks the tree rooted at root and calls fn for every entry
@@ -96,6 +98,7 @@ package backup
 //@   mode int
 //@   opt only-stated
 //@   at-call delete requires drops-a-file-just-found-in-the-set: haskey(arg0, arg1)
+//@   at-call remote.FS.Delete requires orphans-go-only-after-a-complete-backup: walkErr == nil && waitErr == nil
 //
 // restoreByName downloads a remote file exactly when `contains` says it is not among the local files: the restored copy
 // is complete only if `contains` is exactly membership. Full contract.
